@@ -94,6 +94,36 @@ class BallWP(EigWP):
         finally:
             self.in_loop -= 1
 
+    # ------------------------------------------------------------------------------ while loops
+    def ev(self, n):
+        if n.get('kind') == 'NvValue':
+            return n['v']
+        return super().ev(n)
+
+    def loop(self, n):
+        """`k = 0; while (k < size) { body; ++k; }` is walked as `for (k = <current value>; k < size; ++k) body`: the counter is the
+        variable the LAST statement of the body increments (it must not be assigned anywhere else in the body)"""
+        if n['kind'] != 'WhileStmt':
+            return super().loop(n)
+        cond, body = n['inner'][-2], n['inner'][-1]
+        stmts = body.get('inner', []) if body.get('kind') == 'CompoundStmt' else [body]
+        last = unwrap(stmts[-1]) if stmts else {}
+        ref = unwrap(last['inner'][0]) if last.get('kind') == 'UnaryOperator' and last.get('opcode') == '++' else {}
+        if ref.get('kind') != 'DeclRefExpr':
+            raise Unsupported(f'{self.name}: while loop whose body does not end in ++counter')
+        k = ref['referencedDecl']['name']
+        rest = {'kind': 'CompoundStmt', 'inner': stmts[:-1]}
+        if k in self.assigned_scalars(rest) or k not in self.env:
+            raise Unsupported(f'{self.name}: while loop counter {k} is assigned inside the body')
+        init = {'kind': 'DeclStmt', 'inner': [{'kind': 'VarDecl', 'name': k, 'type': ref['referencedDecl']['type'],
+                                               'inner': [{'kind': 'NvValue', 'v': self.env[k]}]}]}
+        if self.dim is not None:
+            r = self.unroll(n, None, cond, None, body)
+        else:
+            r = self.map_reduce(n, init, cond, stmts[-1], rest)
+            self.env[k] = self.fresh('Int', k + '_after', 'long')        # nothing is claimed about the counter after the loop
+        return r
+
     # ------------------------------------------------------------------------------ <random>
     def dist_decl_hook(self, wp, v, init):
         t = v['type']
@@ -256,6 +286,7 @@ def setup(name, fn, n=None):
     wp = BallWP(name, n=n)
     if n is None:
         wp.const('n', 'Int', 'long')
+        wp.assume(wp.in_range('n', 'long'))
     for key, p in wp.bind_params(fn):
         t = p['type']
         if tmatch(RNG_T, t):
@@ -278,6 +309,7 @@ def setup(name, fn, n=None):
     if n is None:
         wp.assume('(> n 0)')
     if getattr(wp, 'out_key', None) and n is None:
+        wp.assume(wp.in_range('x_size', 'long'))
         wp.assume('(= n x_size)')
     return wp
 
@@ -399,7 +431,7 @@ def ball_vcs(tag, n=None):
     seen = {}
     for label, guard, claim, line, facts in wp.obligations:
         nm, extra = label, []
-        if label.startswith('real-model division is defined') and 'nv_sqrt' not in claim:
+        if label.startswith('real-model division is defined') and 'nv_sum' not in claim and not any(t in claim for _, t, _ in wp.draws):
             nm = 'exponent_defined: the division in the exponent 1 / n is by a non-zero dimension'
         elif label.startswith('real-model division is defined'):
             nm = 'direction_nonzero: the norm the direction is divided by is non-zero (given: some Gaussian draw is non-zero)'
